@@ -658,6 +658,12 @@ func (d *DefaultServerDispatcher) messagePump(stoppedC chan struct{}, timerC cha
 				}
 			}
 		case clientID = <-d.readyForDispatch:
+			if d.pendingRequestState.HasPendingRequest(clientID) {
+				// The request this token was posted for has been followed by another one already (a request
+				// token of the same client was handled first): that one keeps its timeout and stays the only
+				// outstanding request
+				continue
+			}
 			// Cancel previous timeout (if any)
 			clientCtx, ok = clientContextMap[clientID]
 			if ok && clientCtx.isActive() {
@@ -674,7 +680,7 @@ func (d *DefaultServerDispatcher) messagePump(stoppedC chan struct{}, timerC cha
 		}
 
 		// Only dispatch request if able to send and request queue isn't empty
-		if rdy && clientQueue != nil && !clientQueue.IsEmpty() {
+		if rdy && clientQueue != nil && !clientQueue.IsEmpty() && !d.pendingRequestState.HasPendingRequest(clientID) {
 			// Send request & set new context
 			clientCtx = d.dispatchNextRequest(clientID)
 			clientContextMap[clientID] = clientCtx
